@@ -19,7 +19,10 @@ GitBranch.set_parent(url) / get_parent() on a real git control directory:
                    L = git_url_to_bzr_url(u); branch/ref compared after ONE unquote (the converter hands
                    back the segment parameter still quoted); L follows the documented scheme table
   parent           set_parent(url) ; fresh open ; get_parent() denotes the same repository location and
-                   the same target ref; the value stored in git's config is the ref itself
+                   the same target ref; the value stored in git's config is the ref itself.  The git config
+                   the branch lives in is drawn too: branch.<name>.remote (non-default upstream remote),
+                   branch.<name>.pushRemote / a [branch] remote default naming ANOTHER remote (triangular
+                   workflow, that remote with or without a url), a remote.origin.url left by an earlier clone
 """
 import itertools
 import os
@@ -40,11 +43,13 @@ MIN_EVALS = {"quick": 20000, "thorough": 600000}
 FLOORS = {
     "quick": {"file_id_escape": 5000, "file_id_path": 3000, "revid": 2000, "branch_ref": 2500, "tag_ref": 2500,
               "ref_name": 4000, "ref_name_named": 1500, "ref_name_refused": 500, "url_with_unnameable_head_ref": 100,
-              "url": 4000, "url_with_ref": 800, "url_with_branch": 800, "parent": 600, "parent_with_target": 300},
+              "url": 4000, "url_with_ref": 800, "url_with_branch": 800, "parent": 600, "parent_with_target": 300,
+              "parent_push_remote_differs": 150, "parent_upstream_remote_not_origin": 80},
     "thorough": {"file_id_escape": 100000, "file_id_path": 80000, "revid": 60000, "branch_ref": 80000, "tag_ref": 80000,
                  "ref_name": 100000, "ref_name_named": 40000, "ref_name_refused": 10000,
                  "url_with_unnameable_head_ref": 2000,
-                 "url": 100000, "url_with_ref": 20000, "url_with_branch": 20000, "parent": 10000, "parent_with_target": 5000},
+                 "url": 100000, "url_with_ref": 20000, "url_with_branch": 20000, "parent": 10000, "parent_with_target": 5000,
+                 "parent_push_remote_differs": 2500, "parent_upstream_remote_not_origin": 1200},
 }
 RUST = ["breezy._git_rs"]
 EXHAUSTIVE = {"quick": False, "thorough": False}
@@ -60,6 +65,9 @@ ASSUMPTIONS = [
     "URLs do not contain ',' in their path (that is breezy's own segment-parameter syntax)",
     "parent equivalence = same location after stripping a trailing '/', same effective target ref "
     "(ref parameter, else refs/heads/<branch parameter>, else HEAD)",
+    "the parent read back does not depend on where the branch PUSHES: remotes named by branch.<name>.pushRemote or by a "
+    "[branch] remote default are configuration of the push location only; which remote section set_parent writes to is "
+    "not judged (only recorded)",
 ]
 
 ESC = (b"_", b" ", b"\x0c", b"/", b"a", b"s", b"c", b"\xff")
@@ -462,12 +470,12 @@ def m_url(ctx, rng):
 
 # ------------------------------------------------------------------ end to end: parent location
 
-def _stored(gitdir, name):
+def _stored(gitdir, name, upstream=b"origin"):
     from dulwich.config import ConfigFile
 
     cf = ConfigFile.from_path(os.path.join(gitdir, ".git", "config"))
     out = {}
-    for sec, key, label in (((b"remote", b"origin"), b"url", "url"), ((b"branch", name.encode("utf-8")), b"merge", "merge"),
+    for sec, key, label in (((b"remote", upstream), b"url", "url"), ((b"branch", name.encode("utf-8")), b"merge", "merge"),
                             ((b"branch", b"origin"), b"merge", "merge_of_branch_named_like_remote")):
         try:
             out[label] = cf.get(sec, key)
@@ -476,7 +484,7 @@ def _stored(gitdir, name):
     return out
 
 
-def m_parent(ctx, rng, root, sibling_base):
+def m_parent(ctx, rng, root, sibling_base, setup=None):
     from breezy import urlutils
     from breezy.controldir import ControlDir
 
@@ -515,8 +523,23 @@ def m_parent(ctx, rng, root, sibling_base):
     ctx.count("parent")
     if mode != "none":
         ctx.count("parent_with_target")
+    # the remotes this branch is configured with (written by make_gitdir with plain dulwich)
+    cfg = (setup or {}).get(br.name, {})
+    # (dulwich's ConfigDict.get falls back from [branch "<name>"] to the bare [branch] section, so a [branch] remote
+    # default is also the upstream remote of every branch without its own branch.<name>.remote)
+    upstream = cfg.get("remote") or (setup or {}).get(None) or b"origin"
+    push = cfg.get("push") or (setup or {}).get(None) or upstream
+    push_url = (setup or {}).get(("url", push)) if push != upstream else None
+    d["remotes"] = {"branch.remote": cfg.get("remote", b"").decode() or None, "branch.pushRemote": cfg.get("push", b"").decode() or None,
+                    "[branch] remote": ((setup or {}).get(None) or b"").decode() or None, "push remote url": push_url}
+    if push != upstream:
+        ctx.count("parent_push_remote_differs")
+        ctx.hist("parent:push-remote:%s" % ("with-url" if push_url else "without-url"))
+    if upstream != b"origin":
+        ctx.count("parent_upstream_remote_not_origin")
     br.set_parent(url)
-    st = _stored(root, br.name)
+    st = _stored(root, br.name, upstream)
+    ctx.hist("parent:url-stored-under-upstream-remote:%s" % (st["url"] is not None))
     d["stored"] = {k: (v.decode("utf-8", "replace") if v is not None else None) for k, v in st.items()}
     # stage A: what set_parent stored
     merge = st["merge"]
@@ -540,7 +563,10 @@ def m_parent(ctx, rng, root, sibling_base):
         ctx.note(("parent", url, bname))
         return
     d["get_parent"] = got
-    if not ctx.check(got is not None, "parent:get:none", "get_parent() is None after set_parent(%r)" % url, d):
+    if got is None:
+        ctx.fail("parent:get:none" + (":push-remote-without-url" if push != upstream and not push_url else ""),
+                 "get_parent() is None after set_parent(%r)" % url, d)
+        ctx.note(("parent", url, bname))
         return
     gbase, gparams = urlutils.split_segment_parameters(got)
     try:
@@ -553,7 +579,17 @@ def m_parent(ctx, rng, root, sibling_base):
             same_base = urlutils.normalize_url(gbase).rstrip("/") == urlutils.normalize_url(base).rstrip("/")
         except Exception:
             pass
-    ctx.check(same_base, "parent:get:location-differs:" + fam, "set %r, got %r" % (base, gbase), d)
+    if not same_base:
+        cands = ()
+        if push_url:
+            cands = (git_url_to_bzr_url(push_url).rstrip("/"),
+                     urlutils.join(urlutils.local_path_to_url(root), push_url).rstrip("/"))    # relative remote url
+        if gbase.rstrip("/") in cands:
+            # what came back is the url of the remote the branch pushes to, not of the one set_parent wrote
+            ctx.fail("parent:get:location-is-push-remote-url", "set %r, got %r" % (base, gbase), d)
+            ctx.note(("parent", url, bname))
+            return
+        ctx.fail("parent:get:location-differs:" + fam, "set %r, got %r" % (base, gbase), d)
     if got_ref != want:
         # what does the pure converter say for what is in the config?  (tells the mechanisms apart)
         pure = None
@@ -575,7 +611,8 @@ def m_parent(ctx, rng, root, sibling_base):
         else:
             key = "parent:get:target-ref-differs"
         ctx.fail(key, "set_parent(%r) then get_parent() = %r: target ref %r, wanted %r" % (url, got, got_ref, want), d)
-    ctx.hist("parent:%s:%s:%s" % (fam, mode, "named" if bname else "default"))
+    ctx.hist("parent:%s:%s:%s:%s" % (fam, mode, "named" if bname else "default",
+                                     "triangular" if push != upstream else "one-remote"))
     ctx.note(("parent", url, bname), sample=(d if rng.random() < 0.01 else None))
 
 
@@ -584,6 +621,56 @@ def gen_url_scheme(rng):
         k, u, e = gen_url(rng)
         if k.startswith("scheme:") and not k.endswith(":ssh"):
             return k, u, e
+
+
+PUSH_URLS = ("https://fork.example.net/me/fork.git", "git+ssh://git@fork.example.net/me/repo", "me@fork.example.net:me/fork.git",
+             "ssh://fork.example.net:2222/me/fork", "../fork-of-tree")
+
+
+def configure_remotes(rng, root, names):
+    """Draw the remote configuration of the git dir (plain dulwich): returns
+    {branch name: {"remote": b.., "push": b..}, None: [branch] remote default, ("url", remote): url}."""
+    from dulwich.config import ConfigFile
+
+    path = os.path.join(root, ".git", "config")
+    cf = ConfigFile.from_path(path)
+    setup = {}
+    shape = rng.choice(("plain", "plain", "per-branch", "per-branch", "per-branch", "default"))
+    if shape == "plain":
+        return setup
+    if rng.random() < 0.3:      # left by an earlier clone; set_parent overwrites it
+        cf.set((b"remote", b"origin"), b"url", b"https://old.example.net/old.git")
+        cf.set((b"remote", b"origin"), b"fetch", b"+refs/heads/*:refs/remotes/origin/*")
+    remotes = set()
+    if shape == "default":
+        setup[None] = rng.choice((b"fork", b"mine"))
+        cf.set((b"branch",), b"remote", setup[None])
+        remotes.add(setup[None])
+    for n in names:
+        k = rng.choice(("none", "push", "push", "remote", "remote+push", "remote+push", "push=upstream"))
+        c = {}
+        if k in ("remote", "remote+push", "push=upstream"):
+            c["remote"] = rng.choice((b"upstream", b"up-1", b"origin"))
+        if k in ("push", "remote+push"):
+            c["push"] = rng.choice((b"fork", b"mine", "f\u00f6rk".encode("utf-8")))
+            remotes.add(c["push"])
+        elif k == "push=upstream":
+            c["push"] = c["remote"]
+        sec = (b"branch", n.encode("utf-8"))
+        if "remote" in c:
+            cf.set(sec, b"remote", c["remote"])
+        if "push" in c:
+            cf.set(sec, b"pushRemote", c["push"])
+        if c:
+            setup[n] = c
+    for r in sorted(remotes):
+        if rng.random() < 0.75:
+            u = rng.choice(PUSH_URLS)
+            cf.set((b"remote", r), b"url", u.encode("utf-8"))
+            cf.set((b"remote", r), b"fetch", b"+refs/heads/*:refs/remotes/" + r + b"/*")
+            setup[("url", r)] = u
+    cf.write_to_path(path)
+    return setup
 
 
 def make_gitdir(ctx):
@@ -613,7 +700,7 @@ def make_gitdir(ctx):
             r.refs[b"refs/heads/" + n.encode("utf-8")] = c.id
     finally:
         r.close()
-    return root, os.path.join(top, "work")
+    return root, os.path.join(top, "work"), configure_remotes(ctx.rng, root, ("master", "feat", "origin", "\u00e9"))
 
 
 # ------------------------------------------------------------------ case
@@ -653,8 +740,9 @@ def case(ctx):
         m_url(ctx, rng)
     # end to end
     try:
-        root, sib = make_gitdir(ctx)
+        root, sib, setup = make_gitdir(ctx)
     except Exception as e:
         ctx.discard("cannot create git control dir: %s" % type(e).__name__)
+        return
     for _ in range(8 if quick else 14):
-        m_parent(ctx, rng, root, sib)
+        m_parent(ctx, rng, root, sib, setup)
